@@ -1009,6 +1009,20 @@ class Compiler:
       return self.lift(base.rc.records[base.rid - 1][attr])
     if isinstance(base, SE) and isinstance(base.typ, tuple) and base.typ[0] == "rec":
       return self.rec_field(base, attr)
+    if isinstance(base, SSnap) and attr == "index":
+      def index(comp, args, kwargs, _s=base):
+        x = comp.intx(args[0])
+        found = BoolOp("or", [BoolOp("and", [Cmp("lt", K(j), V(_s.lenvar)), Cmp("eq", V(_s.cells[j]), x)]) for j in range(len(_s.cells))])
+        br = comp._emit(ir.Branch(cond=found, t=None, f=None))
+        comp.dangling = [(br, "f")]
+        comp.raise_exc("ValueError")
+        comp.dangling = [(br, "t")]
+        comp.label()
+        idx = K(0)
+        for j in reversed(range(len(_s.cells))):
+          idx = Ite(BoolOp("and", [Cmp("lt", K(j), V(_s.lenvar)), Cmp("eq", V(_s.cells[j]), x)]), K(j), idx)
+        return SE(idx)
+      return SI(index, "list.index")
     if isinstance(base, SNs):
       if attr not in base.attrs:
         raise TranslationError("%s.%s is not modelled" % (base.name, attr))
